@@ -2,6 +2,7 @@
    Statements only; every proof is [exact] of a lemma proved elsewhere. *)
 From Coq Require Import List NArith.
 From TarsV Require Import Base.Hex Frame.Framing Frame.FramingProofs.
+From TarsV Require Xlate.TarsRequestEquiv.
 Import ListNotations.
 Open Scope N_scope.
 
